@@ -7,7 +7,7 @@
    sequential history -- the one in lock-acquisition order. *)
 From Coq Require Import ZArith List Bool.
 From GoCoap Require Import Base.Bytes Base.Interleave NoResp.Model Gen.DedupConsts Dedup.Model Dedup.Proofs Dedup.Conc.
-From GoCoap Require Import Dedup.Method Dedup.Sweep.
+From GoCoap Require Import Dedup.Method Dedup.Sweep Dedup.Unlock.
 From GoCoap Require Dedup.Spec.
 Import ListNotations.
 Open Scope Z_scope.
@@ -326,6 +326,61 @@ Theorem C05_method_range_refuted :
   demo_calls gate_range FETCH = [true; true] /\ demo_calls gate_range PATCH = [true; true] /\ demo_calls gate_range IPATCH = [true; true].
 Proof. exact method_range_refuted. Qed.
 Print Assumptions C05_method_range_refuted.
+
+(* ================= part 2b: the lock is kept until the reply is stored (Dedup/Unlock.v) ================= *)
+
+(* check - handle - store is one critical section per message ID.  The code, every number of threads, every program,
+   every schedule: while a copy is between its Lock and its Unlock -- pc 2 lookup, 3 handler, 4 store, 5 Unlock; in
+   particular when its handler has returned and its reply is still being stored, however long the (possibly
+   application-supplied) response cache takes for it -- every other copy with that message ID is either not past its
+   Lock or has finished its Unlock: none is looking into the cache, none is in the handler. *)
+Theorem C05_store_in_section : forall s0 progs sched t1 t2 th1 th2 ty1 m tk1 cd1 ro1 b1 l1 ty2 tk2 cd2 ro2 b2 l2,
+  let c := cexec sched (cinit s0 progs) in
+  nth_error (Interleave.threads sh ev loc res c) t1 = Some th1 ->
+  nth_error (Interleave.threads sh ev loc res c) t2 = Some th2 -> t1 <> t2 ->
+  Interleave.cur ev loc res th1 = Running (Req ty1 m tk1 cd1 ro1 b1) l1 -> (2 <= pc l1 <= 5)%nat ->
+  Interleave.cur ev loc res th2 = Running (Req ty2 m tk2 cd2 ro2 b2) l2 ->
+  (pc l2 <= 1 \/ 6 <= pc l2)%nat.
+Proof. exact store_in_section. Qed.
+Print Assumptions C05_store_in_section.
+
+(* The place of the Unlock as a parameter of the thread ([UAfterStore]: the code, [UBeforeStore]: released when the
+   handler has returned, the reply is stored afterwards).  The code's setting is the thread of part 2 ... *)
+Theorem C05_unlock_after_store_is_the_code : forall o l s, act_u UAfterStore o l s = act o l s.
+Proof. exact unlock_code. Qed.
+Print Assumptions C05_unlock_after_store_is_the_code.
+
+(* ... a copy that is processed alone performs Dedup.Model.step under both orders (why sequential processing -- the
+   single read loop of every existing test -- does not notice) ... *)
+Theorem C05_early_unlock_same_if_alone : forall u typ mid tok code ro b s,
+  ~ In mid (held s) ->
+  let o := Req typ mid tok code ro b in
+  run_u u 7 o (init_loc o) s =
+  Some ({| g := fst (step (g s) o); held := held s; acq := o :: acq s |}, (snd (step (g s) o), length (acq s))).
+Proof. exact early_unlock_solo. Qed.
+Print Assumptions C05_early_unlock_same_if_alone.
+
+(* ... but with the early Unlock, from ANY state in which the message ID is free and has no valid reply, for EVERY
+   request and handler behaviour: "first copy up to and including its Unlock; second copy completely; rest of the
+   first copy" is an execution, and both copies run the handler.  With the code's order that schedule does not exist:
+   the second copy cannot take the lock. *)
+Theorem C05_early_unlock_reexecutes : forall typ mid tok code ro b s,
+  ~ In mid (held s) -> req_lookup typ mid (cache (g s)) = None ->
+  let o := Req typ mid tok code ro b in
+  (exists r1 r2, unlock_window UBeforeStore o s = Some (r1, r2) /\
+                 o_called (fst r1) = true /\ o_called (fst r2) = true /\ snd r1 <> snd r2) /\
+  unlock_window UAfterStore o s = None.
+Proof. exact early_unlock_reexecutes. Qed.
+Print Assumptions C05_early_unlock_reexecutes.
+
+(* The complete machine of Base/Interleave.v, two copies of CON GET mid 17185 answered 2.05, one schedule (thread 0
+   five actions, thread 1 nine turns, thread 0 to the end, thread 1 to the end): (thread, handler called) of the
+   returned calls in the order they returned. *)
+Theorem C05_early_unlock_refuted :
+  unlock_demo_calls UAfterStore = [(0%nat, true); (1%nat, false)] /\
+  unlock_demo_calls UBeforeStore = [(1%nat, true); (0%nat, true)].
+Proof. exact early_unlock_refuted. Qed.
+Print Assumptions C05_early_unlock_refuted.
 
 (* ================= part 3: sweeps in flight (Dedup/Sweep.v) ================= *)
 
